@@ -265,6 +265,17 @@ def check_glycan(case) -> Result:
                 r.fail('glycan mass is the count-weighted sum of tabulated masses', 'C15/glycan/mass', mono=mono, got=got, expected=exp_m, **ctx)
         except ValueError as e:
             r.fail('glycan mass of table names', 'C15/glycan/mass-raises', error=str(e)[:150], **ctx)
+    # the chemical formula written for the glycan weighs what the glycan weighs (counts of any magnitude survive the writing)
+    if d:
+        try:
+            cf = pt.convert_glycan_formula_to_chem_formula(d)
+            m_cf = pt.chem_mass(cf)
+            exp_m = sum(v * names[k]['mono'] for k, v in d.items())
+            if abs(m_cf - exp_m) > 1e-6 * (1 + sum(abs(v) for v in d.values()) * 400):
+                r.fail('the chemical formula written for a glycan has the mass of the glycan', 'C15/glycan/chem-formula-mass', formula=cf, got=m_cf,
+                       expected=exp_m, **ctx)
+        except ValueError as e:
+            r.fail('the chemical formula written for a glycan parses', 'C15/glycan/chem-formula-raises', error=str(e)[:150], **ctx)
     # names and synonyms are interchangeable
     canon = {}
     for k, v in d.items():
